@@ -41,6 +41,12 @@ const s2sMaxPresentationValidity = 5 * time.Second
 // The value is specified by Nuts RFC021.
 const s2sMaxClockSkew = 5 * time.Second
 
+// s2sNonceRetention defines how long a used nonce is remembered.
+// A presentation is accepted from its creation minus the clock skew until its expiration plus the clock skew,
+// so it can be presented (again) for s2sMaxPresentationValidity + 2 * s2sMaxClockSkew after its first use.
+// The nonce must be remembered at least that long; a margin is added for stores with a coarse TTL resolution.
+const s2sNonceRetention = s2sMaxPresentationValidity + 2*s2sMaxClockSkew + 5*time.Second
+
 // handleS2SAccessTokenRequest handles the /token request with vp_token bearer grant type, intended for service-to-service exchanges.
 // It performs cheap checks first (parameter presence and validity, matching VCs to the presentation definition), then the more expensive ones (checking signatures).
 func (r Wrapper) handleS2SAccessTokenRequest(ctx context.Context, clientID string, subject string, scope string, submissionJSON string, assertionJSON string) (HandleTokenRequestResponseObject, error) {
@@ -232,5 +238,5 @@ var s2sNonceKey = []string{"s2s", "nonce"}
 
 // s2sNonceStore is used by the authorization server for replay prevention by keeping track of used nonces in the s2s flow
 func (r Wrapper) s2sNonceStore() storage.SessionStore {
-	return r.storageEngine.GetSessionDatabase().GetStore(s2sMaxPresentationValidity+s2sMaxClockSkew, s2sNonceKey...)
+	return r.storageEngine.GetSessionDatabase().GetStore(s2sNonceRetention, s2sNonceKey...)
 }
